@@ -162,6 +162,9 @@ class Interpreter:
         mode = op.get("mode", 0)
         key = op.get("key", "K")
         val = op.get("val")
+        props = None
+        if mode % 3 == 0 and s is not None:
+            props = {"EDIF.identifier": IDENTS[b % len(IDENTS)]}
 
         def member(container_list, kind):
             if own and len(container_list):
@@ -203,24 +206,23 @@ class Interpreter:
 
         # ---------------- netlist
         if name == "nl.new":
-            return Call(name, None, [s], lambda: sdn.Netlist(name=s) if s is not None else sdn.Netlist())
+            return Call(name, None, [s], lambda: sdn.Netlist(name=s, properties=props))
         if name == "lib.new":
-            return Call(name, None, [s], lambda: sdn.Library(name=s) if s is not None else sdn.Library())
+            return Call(name, None, [s], lambda: sdn.Library(name=s, properties=props))
         if name == "def.new":
-            return Call(name, None, [s],
-                        lambda: sdn.Definition(name=s) if s is not None else sdn.Definition())
+            return Call(name, None, [s], lambda: sdn.Definition(name=s, properties=props))
         if name == "inst.new":
-            return Call(name, None, [s], lambda: sdn.Instance(name=s) if s is not None else sdn.Instance())
+            return Call(name, None, [s], lambda: sdn.Instance(name=s, properties=props))
         if name == "port.new":
             def mk():
-                P = sdn.Port(name=s) if s is not None else sdn.Port()
+                P = sdn.Port(name=s, properties=props)
                 if k:
                     P.create_pins(k)
                 return P
             return Call(name, None, [s, k], mk)
         if name == "cable.new":
             def mk():
-                C = sdn.Cable(name=s) if s is not None else sdn.Cable()
+                C = sdn.Cable(name=s, properties=props)
                 if k:
                     C.create_wires(k)
                 return C
@@ -235,7 +237,8 @@ class Interpreter:
             if N is None:
                 return None
             if name == "nl.create_library":
-                return Call(name, N, [s], lambda: N.create_library(name=s), compound=True)
+                return Call(name, N, [s], lambda: N.create_library(name=s, properties=props),
+                            compound=True)
             if name == "nl.add_library":
                 L = orphan("library", "netlist")
                 if L is None:
@@ -279,7 +282,8 @@ class Interpreter:
             if L is None:
                 return None
             if name == "lib.create_definition":
-                return Call(name, L, [s], lambda: L.create_definition(name=s), compound=True)
+                return Call(name, L, [s], lambda: L.create_definition(name=s, properties=props),
+                            compound=True)
             if name == "lib.add_definition":
                 D = orphan("definition", "library")
                 if D is None:
@@ -312,14 +316,15 @@ class Interpreter:
                 return None
             if name == "def.create_port":
                 direction = [None, sdn.IN, sdn.OUT, sdn.INOUT][mode % 4]
-                return Call(name, D, [s, k], lambda: D.create_port(name=s, pins=k, direction=direction),
-                            compound=True)
+                return Call(name, D, [s, k], lambda: D.create_port(name=s, pins=k, direction=direction,
+                                                                  properties=props), compound=True)
             if name == "def.create_cable":
-                return Call(name, D, [s, k], lambda: D.create_cable(name=s, wires=k), compound=True)
+                return Call(name, D, [s, k], lambda: D.create_cable(name=s, wires=k, properties=props),
+                            compound=True)
             if name == "def.create_child":
                 R = U.pick("definition", b) if mode % 4 else None
-                return Call(name, D, [s, R], lambda: D.create_child(name=s, reference=R),
-                            compound=True)
+                return Call(name, D, [s, R], lambda: D.create_child(name=s, reference=R,
+                                                                   properties=props), compound=True)
             for what, kind, attr, parent_attr in (("port", "port", "ports", "definition"),
                                                   ("cable", "cable", "cables", "definition"),
                                                   ("child", "instance", "children", "parent")):
@@ -547,6 +552,13 @@ class Interpreter:
                             if [len(P.pins) for P in D.ports] == shape]
                     if cand:
                         R = cand[a % len(cand)]
+                elif not own and R is not None and I.reference is not None and mode % 2:
+                    # near miss: same number of ports, different pin counts
+                    shape = [len(P.pins) for P in I.reference.ports]
+                    cand = [D for D in U.pool["definition"] if len(D.ports) == len(shape)
+                            and [len(P.pins) for P in D.ports] != shape]
+                    if cand:
+                        R = cand[a % len(cand)]
 
                 def f():
                     I.reference = R
@@ -633,6 +645,7 @@ STRUCT_OPS = [
 ]
 
 NAMES = ["a", "A", "b", "a_1", "c", "a[3]", "x y", "d"]
+IDENTS = ["a", "A", "b", "aB", "Ab", "b_", "&1", "c"]
 KEYS = [".NAME", "EDIF.identifier", "K", "user.k"]
 
 
